@@ -591,3 +591,45 @@ def field_reaches_os(db, fn, owner, field, depth=3):
         if srcs and _reaches_os_from(db, f, srcs, depth, seen):
             return True
     return False
+
+
+def rule_forward(ctx, db, rid, want_socket=None):
+    """FORWARD: an op that wraps another op (its trait methods forward to the same trait's methods of an
+    inner op) forwards *every* method the inner op's impl overrides."""
+    n = 0
+    for trait in (IOUR_OP, POLL_OP):
+        tshort = "iour" if trait == IOUR_OP else "poll"
+        impls = {a: (imp, ms) for imp, a, ms in op_impls(db, trait)}
+        for adt, (imp, ms) in sorted(impls.items()):
+            if want_socket is not None and is_socket_op(adt) != want_socket:
+                continue
+            # inner op types whose trait methods this wrapper calls
+            inner = {}
+            for nm, f in ms.items():
+                for g in reach_fns(db, f, depth=1):
+                    for bb, t in g.calls():
+                        if t.get("tr") == trait or t.get("itr") == trait:
+                            rid_ = t.get("rfnid") or ""
+                            tgt = db.fns.get(rid_)
+                            if tgt is not None and tgt.impl and tgt.impl.get("self_adt") and tgt.impl["self_adt"] != adt:
+                                inner.setdefault(tgt.impl["self_adt"], set()).add((nm, tgt.short))
+            for x, pairs in sorted(inner.items()):
+                if x not in impls:
+                    continue
+                over = set(impls[x][1].keys())
+                fwd = {callee for (nm, callee) in pairs}
+                if len(fwd) < 2:
+                    continue      # not a forwarding wrapper (uses one helper of the inner op only)
+                for mth in sorted(over):
+                    # entry builders are the wrapper's own business (it submits a different opcode); call_blocking is
+                    # only reachable when the wrapper's entries are unsupported — 2 of 5 zero-copy siblings and the
+                    # multishot accept do not forward it (triage note F12 in DESIGN.md, not armed)
+                    if mth in ("Control", "create_entry", "create_entry_fallback", "call_blocking"):
+                        continue
+                    n += 1
+                    ctx.ob(rid, "wrapper-forwards:%s/%s->%s.%s" % (tshort, short(adt), short(x), mth), mth in fwd,
+                           "the wrapper op forwards `%s` to the inner op, which overrides it (a default no-op on the "
+                           "wrapper silently drops what the inner op does there, e.g. recording the received length or "
+                           "copying address / control lengths back at completion)" % mth,
+                           ms.get(mth) or next(iter(ms.values())))
+    return n
